@@ -217,8 +217,22 @@ struct VA {
   using VTT = VT<V_, R_>;
 };
 
+template <class R>
+struct RegionScope {
+  alignas(typename R::region_guard) unsigned char buf[sizeof(typename R::region_guard)];
+  bool on;
+  explicit RegionScope(bool enable) : on(enable) {
+    if (on) new (buf) typename R::region_guard();
+  }
+  ~RegionScope() {
+    using RG = typename R::region_guard;
+    if (on) reinterpret_cast<RG*>(buf)->~RG();
+  }
+};
+
 template <class A>
 struct VHarness {
+  int region_mode = 0;
   using Map = typename A::Map;
   using K = typename A::K;
   using VTT = typename A::VTT;
@@ -499,12 +513,16 @@ struct VHarness {
     }
     static const uint32_t wi[6] = {0, 9, 5, 2, 2, 1};
     for (int i = 0; i < 14; ++i) iprog[i] = (uint8_t)vrt::weighted(wi, 6);
+    // last draw (older replay files read 0 = none): threads that run their whole program inside one region_guard
+    region_mode = (int)vrt::choose(4);
+    if (region_mode >= 2) vrt::label("threads_inside_region_guard");
 
     static const char* const kn[O_NK] = {"nop", "insert", "erase", "extract", "try_get_value", "find", "erase(it)", "yield", "scan"};
     if (vrt::want_desc()) {
       vrt::desc("initial capacity=%d keys=%d pattern=%d (", cap, U, pattern);
       for (int i = 0; i < U; ++i) vrt::desc("%s%d", i ? "," : "", keyval[i]);
-      vrt::desc(") stable keys>=%d threads=%d iterator=%d(%s)\n  prefix:", stable_from, nthreads, (int)with_iter, iter_from_find ? "find" : "begin");
+      vrt::desc(") stable keys>=%d threads=%d iterator=%d(%s)%s\n  prefix:", stable_from, nthreads, (int)with_iter, iter_from_find ? "find" : "begin",
+                region_mode == 2 ? " region_guard=all threads" : region_mode == 3 ? " region_guard=T1" : "");
       for (int i = 0; i < nprefix; ++i) vrt::desc(" %s/%d(%d)", kn[prefix[i].kind], prefix[i].variant, prefix[i].key);
       vrt::desc("\n");
       for (int t = 0; t < nthreads; ++t) {
@@ -542,9 +560,14 @@ struct VHarness {
     vrt::concurrent_phase(true);
     {
       vh::Threads th;
-      if (with_iter) th.start([this] { iterator_session(hist[MAXT]); });
+      if (with_iter)
+        th.start([this] {
+          RegionScope<typename A::R> rg(region_mode == 2);
+          iterator_session(hist[MAXT]);
+        });
       for (int t = 0; t < nthreads; ++t)
         th.start([this, t] {
+          RegionScope<typename A::R> rg(region_mode == 2 || (region_mode == 3 && t == 0));
           for (int i = 0; i < MAXOPS; ++i)
             if (progs[t][i].kind) {
               vrt::point();
